@@ -12,11 +12,13 @@ import os, shutil, tempfile
 import networkx as nx
 import common, translate, gencheck
 
-PROOFS = {"augment": "AugSpec.v", "solpaths": "SolPathsSpec.v"}
-ORDER = ["augment", "solpaths"]
+PROOFS = {"augment": "AugSpec.v", "solpaths": "SolPathsSpec.v", "is_scc_edge": "SccEdgeSpec.v"}
+ORDER = ["augment", "solpaths", "is_scc_edge"]          # every target this module knows
+C01 = ["augment", "solpaths"]; C17 = ["is_scc_edge"]
 STATEMENT = {
     "augment": "the augmentation adds exactly: the caller's edges, an edge source->u for every node u with in-degree 0 or in additional_starts, "
                "an edge u->sink for every node with out-degree 0 or in additional_ends; source_edges / sink_edges list them in node order",
+    "is_scc_edge": "stDiGraph.is_scc_edge(u, v) raises ValueError exactly when (u, v) is not an edge and otherwise says whether v reaches u (same SCC)",
     "solpaths": "get_solution_paths returns, per layer, the route obtained by following from the source the first successor whose edge variable is 1 "
                 "(source and sink stripped), [] when no edge leaves the source",
 }
@@ -187,7 +189,64 @@ def sp_decode(r, args):
     return {"exc": None, "paths": [list(p) for p in r[2:-1]], "cache_filled": r[-1][0]}
 
 
+# ------------------------------------------------------------------------------------------ stDiGraph.is_scc_edge
+def scc_case(rng, i):
+    n = rng.randint(1, 6)
+    pairs = [(u, v) for u in range(n) for v in range(n) if u != v or rng.random() < 0.3]
+    rng.shuffle(pairs)
+    edges = pairs[:rng.randint(0, min(9, len(pairs)))]
+    r = rng.random()
+    if edges and r < 0.7: q = rng.choice(edges)
+    elif r < 0.85: q = ("s", rng.randrange(n))
+    else: q = (rng.randrange(n), rng.randrange(n))
+    return (n, edges, q)
+
+
+def scc_objects(args):
+    import flowpaths as fp
+    n, edges, q = args
+    name = {v: "v%d" % v for v in range(n)}
+    G = nx.DiGraph(); G.add_nodes_from(name[v] for v in range(n)); G.add_edges_from((name[u], name[v]) for u, v in edges)
+    S = [] if any(G.in_degree(x) == 0 for x in G) else [name[0]]        # stDiGraph wants at least one start and one end
+    T = [] if any(G.out_degree(x) == 0 for x in G) else [name[n - 1]]
+    st = fp.stDiGraph(G, additional_starts=S, additional_ends=T)
+    name["s"] = st.source; name["t"] = st.sink
+    num = {name[v]: v for v in range(n)}; num[st.source] = n; num[st.sink] = n + 1
+    return st, name, num
+
+
+def scc_real(args):
+    st, name, num = scc_objects(args)
+    try:
+        r = st.is_scc_edge(name[args[2][0]], name[args[2][1]])
+    except Exception as e:
+        return {"exc": type(e).__name__}
+    return {"exc": None, "value": r}
+
+
+def scc_spec(args):
+    st, name, num = scc_objects(args)
+    u, v = name[args[2][0]], name[args[2][1]]
+    if not st.has_edge(u, v): return {"exc": "ValueError"}
+    return {"exc": None, "value": nx.has_path(st, v, u)}
+
+
+def scc_call(args):
+    st, name, num = scc_objects(args)
+    m = st._condensation.graph["mapping"]
+    return "[enc_result enc_bool (fn %s %s %s %s)]" % (cN(num[name[args[2][0]]]), cN(num[name[args[2][1]]]), cL([cE((num[u], num[v])) for u, v in st.edges()]),
+                                                       cL(["(%s, %s)" % (cN(num[x]), cN(c)) for x, c in m.items()]))
+
+
+def scc_decode(r, args):
+    r = r[0]
+    if r[0] == 1: return {"exc": {0: "ValueError", 1: "KeyError"}.get(r[1], str(r))}
+    return {"exc": None, "value": bool(r[1])} if r[0] == 0 else {"exc": "returned None"}
+
+
 TARGET = {
+    "is_scc_edge": dict(case=scc_case, real=scc_real, spec=scc_spec, call=scc_call, decode=scc_decode, header=["From FP Require Import PyRt.", "From FPGen Require Import Gen_is_scc_edge."],
+                        show=lambda a: {"nodes": a[0], "edges": a[1], "query_(u,v)": a[2]}),
     "solpaths": dict(case=sp_case, real=sp_real, spec=sp_spec, call=sp_call, decode=sp_decode, header=["From FP Require Import PyRt.", "From FPGen Require Import Gen_solpaths."],
                      show=lambda a: {"nodes": a[0], "edges": a[1], "k": a[2], "value_1_edges_per_layer": a[3], "mode": a[4], "external_solution_paths": a[5]}),
     "augment": dict(case=aug_case, real=aug_real, spec=aug_spec, call=aug_call, decode=aug_decode, header=["From FP Require Import PyRt.", "From FPGen Require Import Gen_augment."],
@@ -196,8 +255,12 @@ TARGET = {
 
 
 # ------------------------------------------------------------------------------------------ driver
+def run_generated_c17(ctx):
+    run_generated_c01(ctx, C17)
+
+
 def run_generated_c01(ctx, names=None):
-    names = [n for n in ORDER if n in (names or ORDER) and n in TARGET and os.path.exists(os.path.join(common.COQ, "gen_proofs", PROOFS[n]))]
+    names = [n for n in ORDER if n in (names or C01) and n in TARGET and os.path.exists(os.path.join(common.COQ, "gen_proofs", PROOFS[n]))]
     base = os.path.join(common.OUT, "work", "gen"); os.makedirs(base, exist_ok=True)
     build = tempfile.mkdtemp(prefix="c01_", dir=base)
     try:
@@ -225,13 +288,13 @@ def one(ctx, name, build, compiled):
     T = TARGET[name]; spec = translate.TARGETS[name]
     rep = {"generated_model": name, "source": spec["file"] + " :: " + spec["func"]}
     model_ok, problems = gencheck.translate_and_prove(ctx, name, build, PROOFS[name], compiled)
-    n = ctx.budget(250, 2500) if name == "augment" else ctx.budget(90, 900)
+    n = ctx.budget(90, 900) if name == "solpaths" else ctx.budget(250, 2500)
     cases = [T["case"](ctx.rng("gen01-" + name, i), i) for i in range(n)]
     real = [T["real"](a) for a in cases]
     concrete = None
     for a, got in zip(cases, real):
         ctx.count("generated_model", "property_evaluations")
-        ctx.case(["generated", name, T["show"](a)], nontrivial=any(bool(x) for x in a[1:4]))
+        ctx.case(["generated", name, T["show"](a)], nontrivial=any(bool(x) for x in a[1:4] if not isinstance(x, tuple)))
         want = T["spec"](a)
         if got != want and concrete is None: concrete = (a, got, want)
     if model_ok:
